@@ -62,18 +62,15 @@ Proof. vm_compute. reflexivity. Qed.
 Lemma gen_unpack_ok : tbl_ok (check_unpacked 8) GenBitPack.unpack_tbl = true.
 Proof. vm_compute. reflexivity. Qed.
 
-Definition tail_pack_ok_b : bool :=
-  forallb (fun w => forallb (fun r =>
-    match pack_tail_exps (N.of_nat w) r with Ok es => check_packed r w es | _ => false end) (seq 1 7)) widths.
+Definition tail_pack_chk (w r : nat) : bool :=
+  match pack_tail_exps (N.of_nat w) r with Ok es => check_packed r w es | _ => false end.
+Definition tail_unpack_chk (w r : nat) : bool :=
+  match unpack_tail_exps (N.of_nat w) r with Ok es => check_unpacked r w es | _ => false end.
 
-Definition tail_unpack_ok_b : bool :=
-  forallb (fun w => forallb (fun r =>
-    match unpack_tail_exps (N.of_nat w) r with Ok es => check_unpacked r w es | _ => false end) (seq 1 7)) widths.
-
-Lemma tail_pack_ok : tail_pack_ok_b = true.
+Lemma tail_pack_ok : forallb (fun w => forallb (tail_pack_chk w) (seq 1 7)) widths = true.
 Proof. vm_compute. reflexivity. Qed.
 
-Lemma tail_unpack_ok : tail_unpack_ok_b = true.
+Lemma tail_unpack_ok : forallb (fun w => forallb (tail_unpack_chk w) (seq 1 7)) widths = true.
 Proof. vm_compute. reflexivity. Qed.
 
 (* ---------- from the checks to statements about all inputs ---------- *)
@@ -196,9 +193,9 @@ Theorem pack_tail_correct : forall w vs,
   pack_tail (N.of_nat w) vs = Ok (pack_stream w vs).
 Proof.
   intros w vs Hw Hr Hvs. unfold pack_tail.
-  pose proof tail_pack_ok as H. unfold tail_pack_ok_b in H. rewrite forallb_forall in H.
+  pose proof tail_pack_ok as H. rewrite forallb_forall in H.
   specialize (H w (proj2 (widths_In w) Hw)). rewrite forallb_forall in H.
-  specialize (H (length vs) (proj2 (in_seq 7 1 (length vs)) ltac:(lia))).
+  specialize (H (length vs) (proj2 (in_seq 7 1 (length vs)) ltac:(lia))). unfold tail_pack_chk in H.
   destruct (pack_tail_exps (N.of_nat w) (length vs)) as [es| |]; try discriminate.
   cbn [obind]. f_equal. apply (packed_sound (length vs)); auto. lia.
 Qed.
@@ -209,9 +206,9 @@ Theorem unpack_tail_correct : forall w r bs,
   unpack_tail (N.of_nat w) r bs = Ok (map (field w bs) (seq 0 r)).
 Proof.
   intros w r bs Hw Hr Hbs. unfold unpack_tail.
-  pose proof tail_unpack_ok as H. unfold tail_unpack_ok_b in H. rewrite forallb_forall in H.
+  pose proof tail_unpack_ok as H. rewrite forallb_forall in H.
   specialize (H w (proj2 (widths_In w) Hw)). rewrite forallb_forall in H.
-  specialize (H r (proj2 (in_seq 7 1 r) ltac:(lia))).
+  specialize (H r (proj2 (in_seq 7 1 r) ltac:(lia))). unfold tail_unpack_chk in H.
   destruct (unpack_tail_exps (N.of_nat w) r) as [es| |]; try discriminate.
   cbn [obind]. f_equal. apply unpacked_sound; assumption.
 Qed.
